@@ -67,3 +67,37 @@ def check_critical_sections(ctx, eng, rule, fn_keys, owner, lock_pred, guarded=N
             if e[0] in ("double-acquire", "double-release"):
                 ctx.ob(rule, f"{key}|{e[0]}{tag}", False, body.loc(e[1]), f"{e[0]} of {e[2]}")
     return n_acc
+
+
+def check_spin_lock_primitive(ctx, rule):
+    """the role `spin.acquire` / `spin.release` really is a lock: ogre_sync::lock returns ONLY on the success edge of a CAS(false -> true, >= Acquire) on its
+    flag (from the entry, with every CAS-success edge removed, no return is reachable); ogre_sync::unlock stores false with >= Release on every path."""
+    import roles as R, dag as D, util
+    from mir import Body
+    fx = ctx.fx
+    body = Body(fx.fn(R.SPIN_LOCK)); dg = D.Dag(body)
+    site = f"{body.f['file']}:{body.f['line']}"
+    cas = [(b, c) for (b, c) in body.calls if (c.get("f") or "").startswith(R.ATOMIC + "compare_exchange")]
+    ok_args = bool(cas)
+    for (b, c) in cas:
+        a = [D.strip_casts(dg.expr(x)) for x in c["args"]]
+        if not (a[0][0] in ("param",) and a[1] == ("const", 0) and a[2] == ("const", 1) and ordering_of(body, c["args"][3]) in ORD_OK_ACQ): ok_args = False
+    ctx.ob(rule, f"{R.SPIN_LOCK}|cas-false-to-true-acquire", ok_args, site, f"{len(cas)} CAS(false -> true) on the flag parameter with success ordering >= Acquire")
+    removed = set()
+    for (b, c) in cas:
+        for (tb, has_t, empty_t) in util.option_test_edges(body, dg, c["dst"]["l"]):
+            removed.add((tb, has_t))        # Result: "has value" = Ok = acquired
+    seen = {0}; st = [0]
+    while st:
+        x = st.pop()
+        for s in body.succ(x):
+            if (x, s) in removed or s in seen: continue
+            seen.add(s); st.append(s)
+    escapes = [r for r in body.returns if r in seen]
+    ctx.ob(rule, f"{R.SPIN_LOCK}|returns-only-after-acquiring", bool(removed) and not escapes, body.loc(escapes[0]) if escapes else site,
+           "lock() returns only through the success edge of one of its CAS attempts" if not escapes else
+           "lock() can return on a path where no CAS(false -> true) succeeded: the caller enters the critical section without owning the lock, and its unlock() releases the real owner's")
+    ub = Body(fx.fn(R.SPIN_UNLOCK)); ud = D.Dag(ub)
+    st_ = [(b, c) for (b, c) in ub.calls if c.get("f") == R.ATOMIC + "store"]
+    ok = len(st_) == 1 and D.strip_casts(ud.expr(st_[0][1]["args"][1])) == ("const", 0) and ordering_of(ub, st_[0][1]["args"][2]) in ORD_OK_REL and util.on_every_return_path(ub, st_[0][0])
+    ctx.ob(rule, f"{R.SPIN_UNLOCK}|store-false-release", ok, f"{ub.f['file']}:{ub.f['line']}", "unlock() stores false with >= Release on every path")
